@@ -753,6 +753,69 @@ def r18_7(ctx, rc):
     else:
         rc.ok({'closure': [f.qualname for f in closure],
                'lossy_calls': 0}, key=key)
+    # the JSON helpers are not memoised: a cache keyed by Python equality
+    # conflates True / 1 / 1.0 and 0.0 / -0.0 / False, which JSON (and the
+    # helpers themselves) tell apart - the answer would depend on which of
+    # them was asked first
+    MEMO = {'lru_cache', 'cache', 'cached_property', 'memoize', 'memoized'}
+    memo = []
+    for nm in WALKERS:
+        F0 = prog.funcs.get('JsonUtil.' + nm)
+        if F0 is None:
+            continue
+        decs = {ast.unparse(d).split('(')[0].split('.')[-1]
+                for d in F0.node.decorator_list}
+        if decs & MEMO:
+            memo.append((F0, sorted(decs & MEMO)))
+    key = 'the JSON helpers are not memoised'
+    if memo:
+        F0, ds = memo[0]
+        rc.violation(
+            'json-helper-memoised | ' + F0.qualname,
+            '%s is memoised (%s): arguments that are equal in Python but '
+            'different in JSON (True, 1, 1.0; 0.0, -0.0, False) share one '
+            'entry, so the result depends on the order of earlier calls' % (
+                F0.qualname, ds), prog.loc(F0, F0.node), key=key)
+    else:
+        rc.ok({'memoised_helpers': 0}, key=key)
+    # an int (subclass) value is never sent through float(): above 2**53
+    # two different ints become one float, and the value handed on is not
+    # what a JSON round trip gives
+    S = _util(ctx, 'sanitize')
+    sgs = ctx.E.super(S, lambda g: False)
+    key = 'sanitize never converts an int through float()'
+    hit = None
+    for x in sgs.nodes:
+        if x.kind == 'leaf' and x.call is not None and \
+                'builtins.float' in prog.resolve_call(x.call, S):
+            classes = None
+            excluded = set()
+            for pol, atom, f_, c_ in Q.control_facts(sgs, x.id):
+                if pol == 'T' and isinstance(atom, ast.Call) and \
+                        isinstance(atom.func, ast.Name) and \
+                        atom.func.id == 'isinstance' and len(atom.args) == 2:
+                    t = atom.args[1]
+                    names = {e.id for e in (t.elts if isinstance(
+                        t, ast.Tuple) else [t]) if isinstance(e, ast.Name)}
+                    classes = names if classes is None else classes & names
+                elif pol == 'F' and isinstance(atom, ast.Call) and \
+                        isinstance(atom.func, ast.Name) and \
+                        atom.func.id == 'isinstance' and len(atom.args) == 2:
+                    t = atom.args[1]
+                    excluded |= {e.id for e in (t.elts if isinstance(
+                        t, ast.Tuple) else [t]) if isinstance(e, ast.Name)}
+            if 'int' not in excluded and (classes is None or
+                                          'int' in classes):
+                hit = x
+    if hit is not None:
+        rc.violation(
+            'int-through-float | ' + S.qualname,
+            '%s applies float() to a value that can be an int (subclass '
+            'instance): it is handed on as a float, and ints above 2**53 '
+            'that differ in the low bits become one value' % S.qualname,
+            hit.where(), key=key)
+    else:
+        rc.ok({'int_values': 'int()'}, key=key)
     K = _util(ctx, "_key_to_str")
     sg = ctx.E.super(K, lambda g: False)
     key = '_key_to_str never renders a float key through int()'
@@ -762,6 +825,7 @@ def r18_7(ctx, rc):
                 'builtins.int' in prog.resolve_call(x.call, K):
             # which classes can the key have here?
             classes = None
+            excluded = set()
             for pol, atom, f_, c_ in Q.control_facts(sg, x.id):
                 if pol == 'T' and isinstance(atom, ast.Call) and \
                         isinstance(atom.func, ast.Name) and \
@@ -770,7 +834,14 @@ def r18_7(ctx, rc):
                     names = {e.id for e in (t.elts if isinstance(
                         t, ast.Tuple) else [t]) if isinstance(e, ast.Name)}
                     classes = names if classes is None else classes & names
-            if classes is None or 'float' in classes:
+                elif pol == 'F' and isinstance(atom, ast.Call) and \
+                        isinstance(atom.func, ast.Name) and \
+                        atom.func.id == 'isinstance' and len(atom.args) == 2:
+                    t = atom.args[1]
+                    excluded |= {e.id for e in (t.elts if isinstance(
+                        t, ast.Tuple) else [t]) if isinstance(e, ast.Name)}
+            if 'float' not in excluded and (classes is None or
+                                            'float' in classes):
                 hit = x
     if hit is not None:
         rc.violation(
